@@ -2,7 +2,7 @@
   Lemmas about the evaluating CLI model (`Model/Cli2.lean`):
 
     * every point the command reads is a real date-time of the active mode (`dateParse_valid`,
-      `parseIso_valid`, `strptime_valid`, `fallbackStrptime_valid`);
+      `parseIso_valid`, `strptime_valid`);
     * the offset loop is the left fold of `+` over the signed durations (`applyOffsets_eq`), which
       is total on valid points (`addAll_valid`) — so `ExitClass.arith` never happens
       (`applyOffsets_cases`, `dateDiff_spec`);
@@ -56,41 +56,23 @@ theorem strptime_valid (m : Mode) (cfg : Strf.PCfg) (loc : TZ) (data fmt : List 
             · exact hs.1
         · exact (mkPoint_inv m _ _ _ _ _ _ _ _ _ tp h).2.2.2.2.2
 
-/-- The `time.strptime` fallback only returns real date-times of the mode. -/
-theorem fallbackStrptime_valid (m : Mode) (toks : List Tok) (s : Str) (tp : TP)
-    (h : fallbackStrptime m toks s = some tp) : tp.Valid m := by
-  unfold fallbackStrptime at h
-  split at h
-  · rename_i y mo d hh mi sec _
-    simp only at h
-    split at h
-    · rename_i hc
-      obtain ⟨_, _, hd, ht⟩ := hc
-      simp only [Option.some.injEq] at h
-      subst h
-      have hm : Strf.mkPoint m y (some mo) (some d) none (some hh) (some mi) (some sec) 0 0 =
-          .ok ⟨.cal y mo d, hh, mi, sec, ⟨0, 0⟩⟩ := by
-        have hz : mkTZ m 0 0 = some ⟨0, 0⟩ := by cases m <;> rfl
-        simp [Strf.mkPoint, hz, Strf.pickDate, hd, ht]
-      exact (mkPoint_inv m _ _ _ _ _ _ _ _ _ _ hm).2.2.2.2.2
-    · cases h
-  · cases h
-
-theorem tryStrp_valid (st : Setup) (s fmt : Str) (toks : List Tok) (P : Parsed) (hl : st.loc.Valid)
-    (h : tryStrp st s fmt toks = some P) : P.tp.Valid st.mode := by
+theorem tryStrp_valid (st : Setup) (s fmt : Str) (P : Parsed) (hl : st.loc.Valid)
+    (h : tryStrp st s fmt = some P) : P.tp.Valid st.mode := by
   unfold tryStrp at h
   split at h
   · rename_i tp htp
     simp only [Option.some.injEq] at h
     subst h
     exact strptime_valid _ _ _ _ _ _ hl htp
-  · cases hf : fallbackStrptime st.mode toks s with
-    | none => rw [hf] at h; cases h
-    | some tp =>
-      rw [hf] at h
-      simp only [Option.map_some, Option.some.injEq] at h
-      subst h
-      exact fallbackStrptime_valid _ _ _ _ hf
+  · cases h
+
+/-- A point read by a built-in strptime format carries that format and no expanded year digits. -/
+theorem tryStrp_fmt (st : Setup) (s fmt : Str) (P : Parsed) (h : tryStrp st s fmt = some P) :
+    P.fmt = fmt ∧ P.ned = 0 := by
+  unfold tryStrp at h
+  split at h
+  · simp only [Option.some.injEq] at h; subst h; exact ⟨rfl, rfl⟩
+  · cases h
 
 theorem textCfg_mode (st : Setup) : st.textCfg.mode = st.mode := rfl
 
@@ -146,11 +128,11 @@ theorem dateParse_valid (st : Setup) (item : Str) (P : Parsed) (hl : st.loc.Vali
             split at hr
             · rename_i P1 h1
               simp only [Except.ok.injEq] at hr; subst hr
-              exact tryStrp_valid _ _ _ _ _ hl h1
+              exact tryStrp_valid _ _ _ _ hl h1
             · split at hr
               · rename_i P1 h1
                 simp only [Except.ok.injEq] at hr; subst hr
-                exact tryStrp_valid _ _ _ _ _ hl h1
+                exact tryStrp_valid _ _ _ _ hl h1
               · exact parseIso_valid _ _ _ _ hr
           obtain ⟨Q, hQ, hQv, _⟩ := utcIf_spec st P0 hv0
           rw [hQ] at h
@@ -619,11 +601,11 @@ theorem parseAny_valid (st : Setup) (s : Str) (P : Parsed) (hl : st.loc.Valid) (
   split at h
   · rename_i P1 h1
     simp only [Except.ok.injEq] at h; subst h
-    exact tryStrp_valid _ _ _ _ _ hl h1
+    exact tryStrp_valid _ _ _ _ hl h1
   · split at h
     · rename_i P1 h1
       simp only [Except.ok.injEq] at h; subst h
-      exact tryStrp_valid _ _ _ _ _ hl h1
+      exact tryStrp_valid _ _ _ _ hl h1
     · exact parseIso_valid _ _ _ _ h
 
 theorem parseAny_benign (st : Setup) (s : Str) (f : Fail) (h : parseAny st s = .error f) : Benign f := by
@@ -1043,5 +1025,225 @@ theorem cliEval_error_cases (env : Env) (a : Args) (f : Fail) (hl : env.localTZ.
           split at h
           · cases h; exact .inl trivial
           · exact .inl (formatDurationStr_benign st i u f (map_error _ _ _ h))
+
+
+/-! ## The dumper does not read a point's recorded format; `XTP.ofTP` of a parsed point
+
+  The command keeps the parsed point as a whole-second `TP` and prints `XTP.ofTP ned tp` with the
+  operator's own dumper; `str` of the parsed point (C07c) prints the parsed `XTP` itself.  The two
+  agree: the parsed point is `XTP.ofTP` of its `TP` up to the recorded format (`ofTP_of_toTP`), and
+  the dumper's output does not depend on that (`dump_meta`). -/
+
+section dumpMeta
+open IsoDT.Text
+
+/-- The fields printing never reads. -/
+def setMeta (p : XTP) (tp : Option TruncProp) (d : Option (List Char)) : XTP := { p with truncProp := tp, dumpFmt := d }
+def core (p : XTP) : XTP := setMeta p none none
+
+/-- Printing reads neither the recorded dump format nor the truncation note. -/
+theorem renderSegs_meta (m : Mode) (p : XTP) (a b) (segs : List Seg) :
+    renderSegs m (setMeta p a b) segs = renderSegs m p segs := by
+  induction segs with
+  | nil => rfl
+  | cons s rest ih =>
+    cases s with
+    | raw c => simp only [renderSegs, ih]
+    | dir o =>
+      cases o with
+      | int pr w =>
+        have : intProp m (setMeta p a b) pr = intProp m p pr := by cases pr <;> rfl
+        simp only [renderSegs, ih, this]
+      | str pr =>
+        have : strProp (setMeta p a b) pr = strProp p pr := by cases pr <;> rfl
+        simp only [renderSegs, ih, this]
+      | lit c => simp only [renderSegs, ih]
+
+def stage1 (m : Mode) (e : Expr) (p : XTP) : Except DumpErr XTP :=
+  let wantsWeek := e.props.contains .weekOfYear || e.props.contains .dayOfWeek
+  let wantsCal := e.props.contains .monthOfYear || e.props.contains .dayOfMonth ||
+    e.props.contains .dayOfYear
+  (if p.truncated then .ok p
+    else if wantsWeek then
+      (if wantsCal || p.isWeek then .ok p
+       else match p.withRep m 2 with
+         | some q => .ok q
+         | none => .error .unsupported)
+    else if p.isWeek && wantsCal then
+      (match p.withRep m 0 with
+       | some q => .ok q
+       | none => .error .unsupported)
+    else .ok p : Except DumpErr XTP)
+
+def stage2 (m : Mode) (e : Expr) (p1 : XTP) : Except DumpErr XTP :=
+  (match e.customTZ with
+    | none => .ok p1
+    | some (h, mi) =>
+      match mkTZ m h mi with
+      | none => .error .err
+      | some z => p1.toTimeZone m z : Except DumpErr XTP)
+
+def stage3 (m : Mode) (dt : DumpTables) (e : Expr) (p2 : XTP) : Except DumpErr (List Char) := do
+  let y ← (match p2.year with
+    | some y => .ok y
+    | none => if e.props.contains .century || e.props.contains .expandedYearDigits ||
+                 e.props.contains .yearSign || e.props.contains .yearOfCentury ||
+                 e.props.contains .yearOfDecade then .error .unsupported else .ok 0 : Except DumpErr Int)
+  if e.props.contains .century && (!e.props.contains .expandedYearDigits || dt.ned = 0) &&
+      !(0 ≤ y && y ≤ 9999) then .error .err
+  else if e.props.contains .expandedYearDigits &&
+      !(-((10 : Int) ^ (dt.ned + 4) - 1) ≤ y && y ≤ (10 : Int) ^ (dt.ned + 4) - 1) then .error .err
+  else
+    match renderSegs m p2 e.segs with
+    | some s => .ok s
+    | none => .error .unsupported
+
+theorem dumpExpr_eq (m : Mode) (dt : DumpTables) (p : XTP) (e : Expr) :
+    dumpExpr m dt p e = (stage1 m e p).bind fun p1 => (stage2 m e p1).bind (stage3 m dt e) := rfl
+
+/-- Same point up to the fields printing never reads. -/
+def Eqv (p q : XTP) : Prop := core p = core q
+
+theorem withRep_meta (m : Mode) (p : XTP) (a b) (k : Nat) :
+    (setMeta p a b).withRep m k = (p.withRep m k).map (setMeta · a b) := by
+  unfold XTP.withRep
+  have : (setMeta p a b).view m k = p.view m k := rfl
+  rw [this]
+  cases p.view m k with
+  | none => rfl
+  | some d => cases d <;> rfl
+
+theorem stage1_meta (m : Mode) (e : Expr) (p : XTP) (a b) :
+    stage1 m e (setMeta p a b) = (stage1 m e p).map (setMeta · a b) := by
+  unfold stage1
+  simp only [withRep_meta]
+  have h1 : (setMeta p a b).truncated = p.truncated := rfl
+  have h2 : (setMeta p a b).isWeek = p.isWeek := rfl
+  rw [h1, h2]
+  repeat' split
+  all_goals first | rfl | simp_all [Except.map]
+
+theorem toTimeZone_meta (m : Mode) (p : XTP) (a b) (z : TZ) :
+    (XTP.toTimeZone m (setMeta p a b) z).map core = (XTP.toTimeZone m p z).map core := by
+  unfold XTP.toTimeZone
+  have h1 : (setMeta p a b).tzUnknown = p.tzUnknown := rfl
+  have h2 : (setMeta p a b).tz = p.tz := rfl
+  have h3 : (setMeta p a b).toTP? = p.toTP? := rfl
+  rw [h1, h2, h3]
+  split
+  · rfl
+  · cases p.toTP? with
+    | none => rfl
+    | some q =>
+      simp only
+      cases Model.toTimeZone m q z with
+      | none => rfl
+      | some q' => rfl
+
+theorem stage3_meta (m : Mode) (dt : DumpTables) (e : Expr) (p : XTP) (a b) :
+    stage3 m dt e (setMeta p a b) = stage3 m dt e p := by
+  unfold stage3
+  have h1 : (setMeta p a b).year = p.year := rfl
+  rw [h1]
+  simp only [renderSegs_meta]
+
+theorem stage3_core (m : Mode) (dt : DumpTables) (e : Expr) (p q : XTP) (h : core p = core q) :
+    stage3 m dt e p = stage3 m dt e q := by
+  have := stage3_meta m dt e p none none
+  have := stage3_meta m dt e q none none
+  unfold core at h
+  simp_all
+
+theorem stage23_meta (m : Mode) (dt : DumpTables) (e : Expr) (p : XTP) (a b) :
+    (stage2 m e (setMeta p a b)).bind (stage3 m dt e) = (stage2 m e p).bind (stage3 m dt e) := by
+  unfold stage2
+  split
+  · simp only [Except.bind]; exact stage3_meta _ _ _ _ _ _
+  · split
+    · rfl
+    · rename_i z _
+      have h := toTimeZone_meta m p a b z
+      cases h1 : XTP.toTimeZone m (setMeta p a b) z with
+      | error e1 =>
+        cases h2 : XTP.toTimeZone m p z with
+        | error e2 => rw [h1, h2] at h; simp only [Except.map, Except.error.injEq] at h; subst h; rfl
+        | ok r2 => rw [h1, h2] at h; simp [Except.map] at h
+      | ok r1 =>
+        cases h2 : XTP.toTimeZone m p z with
+        | error e2 => rw [h1, h2] at h; simp [Except.map] at h
+        | ok r2 =>
+          rw [h1, h2] at h
+          simp only [Except.map, Except.ok.injEq] at h
+          simp only [Except.bind]
+          exact stage3_core _ _ _ _ _ h
+
+/-- **What the dumper prints does not depend on the recorded dump format or truncation note of the
+    point.** -/
+theorem dumpExpr_meta (m : Mode) (dt : DumpTables) (p : XTP) (e : Expr) (a b) :
+    dumpExpr m dt (setMeta p a b) e = dumpExpr m dt p e := by
+  rw [dumpExpr_eq, dumpExpr_eq, stage1_meta]
+  cases stage1 m e p with
+  | error e1 => rfl
+  | ok p1 => simp only [Except.map, Except.bind]; exact stage23_meta _ _ _ _ _ _
+
+theorem dump_meta (m : Mode) (dt : DumpTables) (p : XTP) (fmt : List Char) (a b) :
+    dump m dt (setMeta p a b) fmt = dump m dt p fmt := by
+  unfold dump
+  split
+  · rfl
+  · split
+    · rfl
+    · exact dumpExpr_meta _ _ _ _ _ _
+
+/-- The date fields of a point are in exactly one representation. -/
+def Canon (x : XTP) : Prop :=
+  (x.month.isSome = true ∧ x.day.isSome = true ∧ x.doy = none ∧ x.week = none ∧ x.dow = none) ∨
+  (x.month = none ∧ x.day = none ∧ x.doy.isSome = true ∧ x.week = none ∧ x.dow = none) ∨
+  (x.month = none ∧ x.day = none ∧ x.doy = none ∧ x.week.isSome = true ∧ x.dow.isSome = true)
+
+theorem ofTP_of_toTP (x : XTP) (tp : TP) (h : x.toTP? = some tp) (hc : Canon x) :
+    XTP.ofTP x.ned tp = core x := by
+  obtain ⟨ned, year, month, day, doy, week, dow, hour, minute, second, hd, md, sd, tz, unk, tr, tprop, fmt⟩ := x
+  unfold XTP.toTP? at h
+  split at h
+  · cases h
+  · rename_i hcond
+    simp only [Bool.or_eq_true, not_or, Bool.not_eq_true, Option.isSome_eq_false_iff, Option.isNone_iff_eq_none] at hcond
+    obtain ⟨⟨⟨⟨htr, hunk⟩, h1⟩, h2⟩, h3⟩ := hcond
+    subst htr hunk h1 h2 h3
+    split at h
+    · rename_i dt hh mi ss hdt e1 e2 e3
+      simp only at e1 e2 e3
+      subst e1 e2 e3
+      simp only [Option.some.injEq] at h
+      subst h
+      unfold XTP.date? at hdt
+      simp only at hdt
+      cases year with
+      | none => cases hdt
+      | some y =>
+        simp only at hdt
+        rcases hc with ⟨c1, c2, c3, c4, c5⟩ | ⟨c1, c2, c3, c4, c5⟩ | ⟨c1, c2, c3, c4, c5⟩
+        all_goals simp only at c1 c2 c3 c4 c5
+        · subst c3 c4 c5
+          obtain ⟨mo, rfl⟩ := Option.isSome_iff_exists.mp c1
+          obtain ⟨d, rfl⟩ := Option.isSome_iff_exists.mp c2
+          simp only [Option.some.injEq] at hdt
+          subst hdt
+          rfl
+        · subst c1 c2 c4 c5
+          obtain ⟨n, rfl⟩ := Option.isSome_iff_exists.mp c3
+          simp only [Option.some.injEq] at hdt
+          subst hdt
+          rfl
+        · subst c1 c2 c3
+          obtain ⟨w, rfl⟩ := Option.isSome_iff_exists.mp c4
+          obtain ⟨d, rfl⟩ := Option.isSome_iff_exists.mp c5
+          simp only [Option.some.injEq] at hdt
+          subst hdt
+          rfl
+    · cases h
+
+end dumpMeta
 
 end IsoDT.Lemmas.Cli2
